@@ -3,6 +3,8 @@
      (skel (sch (w..)) <query>)  ->  line 1: <supported 0|1> <joins_wf 0|1> <skeleton lskel (plan_of q)>
                                     line 2: <pskel (phys_of (plan_of q)) = phys_sk (lskel ..) 0|1> <skeleton phys_sk (lskel (plan_of q))>
      (same <db> <query>)  ->  SAME | DIFF | ERRPLAN <kind> | ERRSPEC <kind> | ERRBOTH   (eval_lplan (plan_of q) vs eval_query q, env [])
+     (e2e (sch (w..)) <db> <query> <partitions> <batch size> <reversed 0|1>) -> OK | MISMATCH | EXECERR <kind> | SPECERR <kind>
+                             check_answer d q (exec_pplan <that runtime> (phys_of (plan_of q)))
      (same0 <db> <query>) ->  likewise for plan0_of, errors compared too (SAME also when both are the same error)
    db / query syntax: see ocaml/sql.ml (the parser below is copied from it). *)
 
@@ -127,6 +129,25 @@ let s_pop = function
   | QUnsupported -> "unsupported"
 let rec s_psk (Psk (op, cs)) = "(" ^ s_pop op ^ String.concat "" (List.map (fun c -> " " ^ s_psk c) cs) ^ ")"
 
+(* ---- a concrete runtime for exec_pplan: p partitions, batches of bsz rows, optionally reversed arrival ---- *)
+let rec chunk n l =
+  if l = [] then [] else
+    let rec take k l acc = if k = 0 then (List.rev acc, l) else match l with [] -> (List.rev acc, []) | x :: t -> take (k - 1) t (x :: acc) in
+    let (a, b) = take (max 1 n) l [] in a :: chunk n b
+let mk_deal p bsz rev = fun _ _ rows ->
+  let rows = if rev then List.rev rows else rows in
+  let parts = Array.make p [] in
+  List.iteri (fun i r -> parts.(i mod p) <- r :: parts.(i mod p)) rows;
+  Array.to_list (Array.map (fun l -> chunk bsz (List.rev l)) parts)
+let run_e2e sch d q p bsz rev =
+  let hashv x = n_of_int (Hashtbl.hash x land 0xffffff) in
+  let tree _ rs = List.fold_right (fun r t -> Node (Run r, t)) rs (Run []) in
+  let lsched _ = List.init (4096 * p) (fun i -> nat_of_int (i mod p)) in
+  let usched _ _ = [UPush; UExec; UExec; UPush; UExec; UExec] in
+  exec_pplan (mk_deal p bsz rev) (fun _ rows -> chunk bsz rows) (fun _ l -> List.rev l) (fun _ l -> List.rev l)
+    hashv (n_of_int 4) (nat_of_int p) hashv (nat_of_int p) (nat_of_int 4) (nat_of_int 3) tree lsched usched
+    [] d [] (phys_of (plan_of q))
+
 let sch_of (d : value list list list) : nat list =
   List.map (fun rows -> match rows with [] -> O | r :: _ -> nat_of_int (List.length r)) d
 
@@ -156,6 +177,17 @@ let () =
                | Err e, Ok _ -> print_endline ("ERRPLAN " ^ s_err e ^ " " ^ s_b wf)
                | Ok _, Err e -> print_endline ("ERRSPEC " ^ s_err e ^ " " ^ s_b wf)
                | Err _, Err _ -> print_endline ("ERRBOTH " ^ s_b wf))
+            | L [A "e2e"; L [A "sch"; L ws]; d; q; A p; A bsz; A rev] ->
+              let sch = List.map (fun w -> nat_of (atom w)) ws in
+              let d = List.map p_rows (lst d) in
+              let q = p_query q in
+              (match run_e2e sch d q (int_of_string p) (int_of_string bsz) (rev = "1") with
+               | Err e -> print_endline ("EXECERR " ^ s_err e)
+               | Ok got ->
+                 (match check_answer d q got with
+                  | VOk -> print_endline "OK"
+                  | VMismatch -> print_endline "MISMATCH"
+                  | VSpecError e -> print_endline ("SPECERR " ^ s_err e)))
             | L [A "same0"; d; q] ->
               let d = List.map p_rows (lst d) in
               let q = p_query q in
